@@ -726,8 +726,13 @@ def scheme_bound(c, ec, x, method, imag, kind, split_exact=True):
     """Allowed relative error vs the exact propagator for one call with x = ||H|| |dt| in [0.02, 0.5]."""
     floor = 2e-9
     if c.get("adaptive"):
-        g = abs(_dt(c.get("guess_dt", [0.1, 0.0])))
-        return 2.0 * c.get("adaptive_rtol", 5e-4) * 10 + floor, "adaptive: 20*adaptive_rtol"
+        b = 2.0 * c.get("adaptive_rtol", 5e-4) * 10 + floor
+        why = "adaptive: 20*adaptive_rtol"
+        if method in ("mu_cmf", "ps", "ps2") and c.get("ivp_solver", "krylov") != "krylov":
+            # the local ODE integrator has its own tolerances: the step-size controller cannot do better than that floor
+            b += 20 * c.get("ivp_rtol", 1e-5) * max(x, 0.05) + 20 * c.get("ivp_atol", 1e-8)
+            why += " + 20*ivp_rtol*x (local integrator floor)"
+        return b, why
     if method in ("pc", "tdrk4", "tdrk"):
         p = scheme_order(c, ec)
         return 6.0 * x ** (p + 1) / math.factorial(p + 1) + floor, f"6 x^{p + 1}/{p + 1}!"
@@ -820,7 +825,7 @@ def _pairwise(w, s, pair, e, eh, c, dt, bond_m, got, x, hn, imag, pid_main, td, 
             return  # CMF errors are not a clean power of the step (ODE tolerances, regularisation): judged by the bound only
         p = scheme_order(c, make_config(c))
         want = 2 ** (p + 1) / 1.6
-        if e_full > 1e-9 and e_half > 1e-11:
+        if e_full > 1e-7 and e_half > 1e-9:      # both errors well above the rounding / normalisation floor
             ratio = e_full / e_half
             w.stats.ratio(f"evolve.order:{method}:{c.get('rk_solver', '') if method == 'tdrk' else ''}", want, ratio)
             if ratio < want and not CALIBRATE:
